@@ -127,41 +127,52 @@ def gen_workspace(rng, depth=None, force=None):
     ulevel = rng.randrange(0, depth + 1)
     uf = PyFile()
     nsame = rng.choice([0, 0, 1, 2])
+    blocks = []
     for i in range(nsame):
         if rng.random() < 0.3:
-            rand_fixture(rng, uf, name, params=(name,))       # same-file override
+            blocks.append(lambda: rand_fixture(rng, uf, name, params=(name,)))       # same-file override
         else:
-            rand_fixture(rng, uf, name)
+            blocks.append(lambda: rand_fixture(rng, uf, name))
     kinds = []
     if rng.random() < 0.8:
-        uf.test("test_param", params=(name,) if rng.random() < 0.5 else (name, "bar"),
-                multiline=rng.random() < 0.15)
+        ps = (name,) if rng.random() < 0.5 else (name, "bar")
+        ml = rng.random() < 0.15
+        blocks.append(lambda: uf.test("test_param", params=ps, multiline=ml))
         kinds.append("param")
     if rng.random() < 0.4:
-        rand_fixture(rng, uf, "uses_it", params=(name, "baz") if rng.random() < 0.4 else (name,))
+        ps2 = (name, "baz") if rng.random() < 0.4 else (name,)
+        blocks.append(lambda: rand_fixture(rng, uf, "uses_it", params=ps2))
         kinds.append("fixture_param")
     if rng.random() < 0.4:
-        uf.test("test_uf", params=(), usefixtures=[name] if rng.random() < 0.6 else [name, "bar"])
+        ufl = [name] if rng.random() < 0.6 else [name, "bar"]
+        blocks.append(lambda: uf.test("test_uf", params=(), usefixtures=ufl))
         kinds.append("usefixtures")
     if rng.random() < 0.25:
-        uf.add('@pytest.mark.usefixtures("%s")' % name, hot=True)
-        uf.add("class TestK:")
-        uf.test("test_m", params=("self", name), indent="    ")
+        def klass():
+            uf.add('@pytest.mark.usefixtures("%s")' % name, hot=True)
+            uf.add("class TestK:")
+            uf.test("test_m", params=("self", name), indent="    ")
+        blocks.append(klass)
         kinds.append("class")
     if rng.random() < 0.2:
         form = rng.choice(['pytestmark = pytest.mark.usefixtures("%s")', 'pytestmark = [pytest.mark.usefixtures("%s")]',
                            'pytestmark: list = [pytest.mark.usefixtures("%s")]'])
-        uf.add(form % name, hot=True)
+        blocks.append(lambda: uf.add(form % name, hot=True))
         kinds.append("pytestmark")
     if rng.random() < 0.25:
         ind = rng.choice(["True", '["%s"]' % name])
-        uf.test("test_ind", params=(name,), indirect=(name, ind))
+        blocks.append(lambda: uf.test("test_ind", params=(name,), indirect=(name, ind)))
         kinds.append("indirect")
     if nsame == 0 and rng.random() < 0.3:
-        uf.test("test_late", params=("bar", "baz"))
+        blocks.append(lambda: uf.test("test_late", params=("bar", "baz")))
     if not kinds:
-        uf.test("test_param", params=(name,))
+        blocks.append(lambda: uf.test("test_param", params=(name,)))
         kinds.append("param")
+    # half of the files keep "fixtures first, tests after"; the others interleave freely
+    if rng.random() < 0.5:
+        rng.shuffle(blocks)
+    for b in blocks:
+        b()
     upath = join(dirs[ulevel], "test_use.py")
     ws.add(upath, uf)
     ws.users.insert(0, upath)
